@@ -91,7 +91,7 @@ Definition opt_id (o : opt) : N :=
 
 Definition opt_eqb (a b : opt) : bool := N.eqb (opt_id a) (opt_id b).
 
-Definition value := N.
+Notation value := N (only parsing).
 
 Definition usize_max : N := 18446744073709551615.      (* usize::MAX, 64 bit *)
 Definition i64_max : N := 9223372036854775807.         (* largest integer a TOML document can hold *)
@@ -284,7 +284,7 @@ Definition override_value (k : opt) (v : value) (c : config) : config :=
 (* parsed files                                                       *)
 (* ------------------------------------------------------------------ *)
 
-Definition table := list (opt * value).
+Notation table := (list (opt * N)) (only parsing).
 
 Fixpoint lookup (t : table) (o : opt) : option value :=
   match t with
@@ -328,7 +328,7 @@ Definition to_parsed_config (nightly : bool) (t : table) (se_over ed_over ver_ov
 (* command line                                                       *)
 (* ------------------------------------------------------------------ *)
 
-Definition path := list N.
+Notation path := (list N) (only parsing).
 
 Record cli : Type := mk_cli {
   c_config_path : option path;      (* --config-path *)
